@@ -108,6 +108,8 @@ def display_mockerror(chk, F, rule, cfg):
     chk.floor(rule, 'MockError variants', len(adt['variants']), 14, config=cfg)
     by_variant = {}
     for p in paths:
+        if p.outcome[0] == 'return' and (is_call(strip(p.outcome[1]), r'from_residual$') or (strip(p.outcome[1])[0] == 'agg' and strip(p.outcome[1])[3] == 'Err')):
+            continue        # (the formatter refused an earlier piece: the rest of the message is not written - nothing to say about it)
         var = None
         for d in p.decisions:
             v = strip(d.value)
